@@ -7,17 +7,47 @@ HERE = os.path.dirname(os.path.dirname(os.path.abspath(__file__)))
 TB = ("Trusted: Coq 8.16.1 kernel (coqc; coqchk in the thorough tier), vm_compute in Examples; no axioms (Print Assumptions: closed); "
       "extraction with ExtrOcamlBasic only + ocaml/driver.ml; the correspondence harnesses; the hand-written model (tied to /repo by the correspondence run on every invocation).")
 
+SERIAL = ("Tie: random projects and histories (DSL scripts rendered as sh) are executed by the real binaries and by the extracted model; exit status, script trace, log records, file contents, Files rows (run ids included) and Deps rows are compared after every step. Independent oracles (from-scratch evaluation, repeated build, user-file preservation, failure handling, query listings) are evaluated on the implementation's own results to produce failing inputs.")
+PARTIAL = (" PARTIAL proof: the theorems are the local decision rules / one-step facts of the executable model Build/Model.v, proved for every state; the statement over whole histories is recorded as <id>_full_statement and is not proved in Coq -- over histories the property is decided by the correspondence + oracles.")
+
 CHECKS = {
+ "C01": dict(text="Proof (Coq, partial): dirtiness decision rules of the serial model (never built / failed / newer dependency => dirty) for every database and file-system state; witness history of finding F1 evaluated on the fixed model. " + SERIAL + PARTIAL,
+    note=TB + " Assumptions A-STAMP, A-QUIESCENT; scripts restricted to the DSL; flat project directory.",
+    technique="Coq proof of local decision rules on an executable model + model/implementation differential check over histories + from-scratch oracle", ref="5/C01"),
+ "C02": dict(text="Proof (Coq, partial): never-built and failed targets run; checking dirtiness has no file effect; example: repeated build runs nothing, dropped dependency no longer triggers (vm_compute on the model). " + SERIAL + PARTIAL,
+    note=TB + " The reference simulation named by the property is the extracted Coq model itself.",
+    technique="Coq proof of local decision rules + model/implementation differential check over histories", ref="5/C02"),
+ "C03": dict(text="Proof (Coq, partial): redo-stamp with equal bytes leaves changed_runid alone and marks checked; with different bytes sets changed_runid to the current run; a newer dependency makes its consumer dirty; depth-2 cut-off/forwarding example on the model. " + SERIAL + PARTIAL,
+    note=TB + " SHA-1 is abstracted: the checksum is the stamped byte sequence itself.",
+    technique="Coq proof of the redo-stamp record rules + model/implementation differential check over histories with checksummed targets", ref="5/C03"),
+ "C04": dict(text="Proof (Coq): for every script output, status, prior target state and surrounding file system: status table (206/207/own), failure leaves the target path untouched, success installs exactly the output, no $3 left, no other file touched (C04_job). Tie: serial model vs implementation on output-channel/failure histories. Oracle: exhaustive behaviour matrix (13 behaviours incl. killed scripts and deleted $3 x 2 sizes x 3 prior states) and a concurrent reader on the implementation.",
+    note=TB + " A-RENAME: rename(2) is atomic; a script that writes $1 itself has changed the file (redo adds no effect and reports 206).",
+    technique="Coq proof by case analysis over the job's effect function + exhaustive behaviour matrix on the implementation", ref="5/C04"),
+ "C05": dict(text="Proof (Coq, partial): a target failed in this run is answered with status 32 without touching anything; without --keep-going run_loop starts nothing after a failure; a non-zero job marks its row failed in this run; a failed row is dirty in every later check. " + SERIAL + PARTIAL + " The -j>1 clause rests on the scheduler model of C09.",
+    note=TB + " Serial (-j1) semantics; job status vs command status as in DESIGN.md C04/C05.",
+    technique="Coq proof of failure-handling rules + model/implementation differential check over failing histories", ref="5/C05"),
+ "C11": dict(text="Proof (Coq): a job for an existing file that is not redo's own (never generated, overridden, or stamp no longer the recorded one) returns 0 and leaves every file as it was (C11_user_file_untouched); dirtiness checks and query commands touch no file; finishing a job touches only its own target and $3. " + SERIAL + PARTIAL,
+    note=TB + " A-STAMP: a user replacement with identical mtime and size is indistinguishable by design.",
+    technique="Coq proof of the guard conditions on start_self + model/implementation differential check + user-file preservation oracle", ref="5/C11"),
  "C13": dict(
-    text="Proof (Coq): the iterator state machine of possible_do_files equals the documented candidate order for every absolute path (C13_order), with ordering/argument lemmas. Tie: exhaustive + random differential run of the extracted model against redo::possible_do_files built from the working tree; an independent Python rendering of the documented order is the failing-input oracle.",
+    text="Proof (Coq): the iterator state machine of possible_do_files equals the documented candidate order for every absolute path (C13_order), with ordering/argument lemmas. Tie: exhaustive + random differential run of the extracted model against redo::possible_do_files built from the working tree; an independent Python rendering of the documented order is the failing-input oracle; re-selection after adding/removing candidates is exercised by the serial harness (profile defaults).",
     note=TB + " Existence tests and sh argument passing are the OS's.",
     technique="Coq proof (iterator = declarative spec) + model/implementation differential check",
     ref="5/C13"),
+ "C14": dict(text="Proof (Coq, partial): redo-ifcreate of an existing path is an error and records nothing, of absent paths succeeds without touching files; //ALWAYS is always newer than any earlier run, and a newer dependency makes its consumer dirty; example: always runs once per run for two dependents, ifcreate target runs after the watched file appears and not before. " + SERIAL + PARTIAL,
+    note=TB + " -j>1 clause rests on C07/C09.",
+    technique="Coq proof of ifcreate/always rules + model/implementation differential check over create/delete histories", ref="5/C14"),
  "C15": dict(
-    text="Proof (Coq): normpath idempotent for every byte string; output in normal form; meaning preserved in every link-free directory structure; relpath/rejoin identity; one DB key per real location and no aliasing. Tie: exhaustive strings over {/ . a b} + random, model vs redo::{normpath,abs_path,relpath}; property statements also evaluated directly on the implementation to produce failing inputs.",
+    text="Proof (Coq): normpath idempotent for every byte string; output in normal form; meaning preserved in every link-free directory structure; relpath/rejoin identity; one DB key per real location and no aliasing. Tie: exhaustive strings over {/ . a b} + random, model vs redo::{normpath,abs_path,relpath}; spellings through a real tree with symlinked directories from several working directories (canonicalize table observed from the OS); property statements evaluated directly on the implementation to produce failing inputs.",
     note=TB + " A-CANON: canonicalize() is a parameter (oracle) of the model.",
     technique="Coq proof (induction over components) + exhaustive model/implementation differential check",
     ref="5/C15"),
+ "C17": dict(text="Proof (Coq): the three query commands change nothing but the run-id counter (files, rows, dependency records identical); targets and sources are disjoint; what is in neither list is a special name or a file missing on disk; the ood walk touches no file. The two bounds on redo-ood are decided against the implementation. " + SERIAL,
+    note=TB + " redo-ood's rolled-back write is modelled as discarded.",
+    technique="Coq proof of read-only/partition facts + model/implementation differential check with query commands at every point", ref="5/C17"),
+ "C18": dict(text="Proof (Coq): (a) format/parse round trip for every well-formed record (text may contain '@@ ' or '@@REDO:'), soundness of parse, done-record round trip. Tie: exhaustive small strings + random + malformed stream, model vs redo::logs::Meta. Part (b) (replay/follow of logs) is not yet modelled: PARTIAL.",
+    note=TB + " f64 timestamps modelled as integers in 1e-4 s; signs/exponents/inf/nan in timestamps are outside the model.",
+    technique="Coq proof (round trip) + exhaustive model/implementation differential check", ref="5/C18"),
 }
 
 ALL = ["C%02d" % i for i in range(1, 19)]
